@@ -33,13 +33,12 @@ class Channel {
     Channel (Scheduler &sch) : sch_(sch) { }
 
     bool operator >> (T &out) {
-        if (queue_.empty()) {   //! 如果队列里没有，则等待
+        //! 如果队列里没有，则等待。每次等待前都要重新排队，因为被唤醒后数据可能已被别人取走
+        while (queue_.empty()) {
             token_.push(sch_.getToken());
-            do {
-                sch_.wait();
-                if (sch_.isCanceled())
-                    return false;
-            } while (queue_.empty());
+            sch_.wait();
+            if (sch_.isCanceled())
+                return false;
         }
 
         out = queue_.front();
@@ -48,12 +47,14 @@ class Channel {
     }
 
     Channel& operator << (const T &value) {
-        if (queue_.empty() && !token_.empty()) {
+        queue_.push(value);
+        //! 每放入一个数据就唤醒一个等待者（跳过已失效的token），否则连续写入会丢失唤醒
+        while (!token_.empty()) {
             auto t = token_.front();
             token_.pop();
-            sch_.resume(t);
+            if (sch_.resume(t))
+                break;
         }
-        queue_.push(value);
         return *this;
     }
 
